@@ -195,9 +195,21 @@ TClose ==
   /\ fails' = Fail(E.dirshape = Shape(tabs), "C16_CloseKeepsList")
   /\ UNCHANGED <<tabs, nextTab>> /\ Step
 
+(* Clean removes files nobody lists.  Whatever the handle believes - in particular when another handle has compacted or added *)
+(* tables since it last looked (C09: a stale handle's Clean does nothing or fails) - the listed stack stays as it is, every     *)
+(* listed table stays in place, and the call succeeds or reports a lock failure.                                               *)
+TClean ==
+  /\ Is("clean")
+  /\ LET stale == Ids(loaded[E.h]) # Ids(tabs) IN
+     fails' = Fail(E.dirshape = Shape(tabs), IF stale THEN "C09_StaleCleanNoop" ELSE "C16_CleanKeepsList")
+              \cup Fail(E.res \in {"ok", "lock"}, "C16_CleanSucceeds")
+              \cup Fail(stale => E.res = "lock", "C09_StaleCleanNoop")
+              \cup Residue(E, Shape(tabs))
+  /\ UNCHANGED <<tabs, loaded, nextTab>> /\ Step
+
 TDone == l > Len(Ev) /\ UNCHANGED vars
 
-TNext == TOpen \/ TAdd \/ TCompact \/ TDisk \/ TView \/ TSeekRef \/ TSeekLog \/ TRefsFor \/ TUpToDate \/ TReload \/ TClose \/ TDone
+TNext == TOpen \/ TAdd \/ TCompact \/ TDisk \/ TView \/ TSeekRef \/ TSeekLog \/ TRefsFor \/ TUpToDate \/ TReload \/ TClose \/ TClean \/ TDone
 TSpec == TInit /\ [][TNext]_vars
 
 (* the single invariant: no check failed; a failure prints which, where *)
